@@ -56,9 +56,10 @@ Utf8Faults(b) == {[op |-> "nonutf8", line |-> i] : i \in {i \in Lines(b) : b.kv[
 \* valid UTF-8 that is not ASCII: a 2- or 3-byte character where the grammar expects a digit, a boolean, a colon or a name
 MbFaults(b) == {[op |-> "mbchar", line |-> i, at |-> a, w |-> w] :
                    i \in {i \in Lines(b) : b.kv[i].kind # "sec"}, a \in {"first", "before", "last", "key", "name"}, w \in {2, 3}}
-\* the key of a line rewritten: NAME]SUB[, ][, NAME[SUB, NAMESUB], NAME[[SUB], NAME[SUB]], NAME[], [SUB], NAME]SUB[SUB], NAME[SUB]x
+\* the key of a line rewritten: NAME]SUB[, ][, NAME[SUB, NAMESUB], NAME[[SUB], NAME[SUB]], NAME[], [SUB], NAME]SUB[SUB], NAME[SUB]x,
+\* and the colon after the key dropped / replaced by ";" (on the last line of a section the key then runs to the end of the section)
 KeyFaults(b) == {[op |-> "key", line |-> i, how |-> h] : i \in {i \in Lines(b) : b.kv[i].kind # "sec"},
-                    h \in {"swap", "only", "open", "close", "dopen", "dclose", "empty", "noname", "late", "trail"}}
+                    h \in {"swap", "only", "open", "close", "dopen", "dclose", "empty", "noname", "late", "trail", "nocolon", "semicolon"}}
 RangeLines(b) == {i \in Lines(b) : b.kv[i].kind = "range"}
 SwapFaults(b) == UNION { {[op |-> "swap", a |-> i, b |-> j] : j \in RangeLines(b) \cap {i + 1, i + 2}} : i \in RangeLines(b) }
 CutPoints(b) == ({0} \cup UNION { {c - 1, c, c + 1} : c \in {b.cuts[i] : i \in 1..Len(b.cuts)} }) \cap 0..(b.total - 1)
